@@ -199,7 +199,7 @@ class BuildGen:
                 # 64-bit numeric types would change the width of literals typed by their id: keep widths <= 32
                 if m["opname"] in ("TypeInt", "TypeFloat"):
                     parts = c.split("/")
-                    parts[2] = str(rnd.choice([16, 32]))
+                    parts[2] = str(rnd.choice([8, 16, 32]))
                     c = "/".join(parts)
                 return c
             if r < 0.7 and sect:
